@@ -15,7 +15,7 @@ import muxgen
 import readcheck
 
 LEVEL = "proof"
-CONE = ["Props/C10.v", "Proofs/GenericProofs.v", "Base/Prog.v"]
+CONE = ["Props/C10.v", "Proofs/GenericProofs.v", "Proofs/ShortTransfers.v", "Base/Prog.v"]
 
 
 def reader_files(rng, quick):
